@@ -324,6 +324,7 @@ impl Engine for C13 {
                     app_files: run.app_files.max(1),
                     app_console: false,
                     app_legacy_date: false,
+                    app_date_fmt: 0,
                     net_faults: run.net_faults.clone(),
                     server_today: None,
                     fs_faults: dry_faults,
@@ -351,6 +352,7 @@ impl Engine for C13 {
                 app_files: run.app_files.max(1),
                 app_console: false,
                 app_legacy_date: false,
+                app_date_fmt: 0,
                 net_faults: run.net_faults.clone(),
                 server_today: None,
                 fs_faults: fs_faults.clone(),
